@@ -452,8 +452,17 @@ fn compile_vote_delegation_certificate(
     x: &tir::AdHocDirective,
     network: Network,
 ) -> Result<primitives::Certificate, Error> {
-    let stake = coercion::expr_into_stake_credential(&x.data["stake"], network)?;
-    let drep = coercion::expr_into_bytes(&x.data["drep"])?;
+    let stake = x
+        .data
+        .get("stake")
+        .ok_or(Error::MissingExpression("certificate stake".to_string()))?;
+    let stake = coercion::expr_into_stake_credential(stake, network)?;
+
+    let drep = x
+        .data
+        .get("drep")
+        .ok_or(Error::MissingExpression("certificate drep".to_string()))?;
+    let drep = coercion::expr_into_bytes(drep)?;
     let drep = primitives::DRep::Key(coercion::bytes_into_hash(drep.as_slice())?);
 
     Ok(primitives::Certificate::VoteDeleg(stake, drep))
